@@ -420,7 +420,7 @@ def tiling_slice():
     pre = [st for st in fn.body if isinstance(st, ast.Assign) and tname(st) in want_pre]
     loops = [n for n in ast.walk(fn) if isinstance(n, ast.For) and isinstance(n.target, ast.Name) and n.target.id == 'subblock']
     if len(pre) < 4 or len(loops) != 1:
-        raise core.HarnessError(f"collect_data_block: size arithmetic not found (pre={len(pre)}, loops={len(loops)}): source refactored")
+        raise core.SliceMissing(f"collect_data_block: size arithmetic not found (pre={len(pre)}, loops={len(loops)}): source refactored")
 
     def assigns(node, names):
         return any(isinstance(x, ast.Assign) and tname(x) in names for x in ast.walk(node))
@@ -430,12 +430,12 @@ def tiling_slice():
             body.append(st)
     inner = [n for n in ast.walk(loops[0]) if isinstance(n, ast.For) and isinstance(n.target, ast.Name) and n.target.id == 'pol']
     if len(inner) != 1:
-        raise core.HarnessError("collect_data_block: polarisation loop not found")
+        raise core.SliceMissing("collect_data_block: polarisation loop not found")
     for st in inner[0].body:
         if (isinstance(st, ast.If) and assigns(st, ('subblock_t_range', 'subblock_t_len'))) or (isinstance(st, ast.Assign) and tname(st) in ('t_idx', 'subblock_t_len', 'subblock_t_range')):
             body.append(st)
     if not any(isinstance(st, ast.Assign) and tname(st) == 't_idx' for st in body):
-        raise core.HarnessError("collect_data_block: t_idx assignment not found")
+        raise core.SliceMissing("collect_data_block: t_idx assignment not found")
     mk = lambda stmts: compile(ast.Module(body=stmts, type_ignores=[]), '<slice:collect_data_block sizes>', 'exec')
     return mk(pre), mk(body)
 
